@@ -74,7 +74,7 @@ def main():
     R = vp.Result("C16")
     R.assumptions = [
         "the deadline function is a fixed function of the duty (as core.NewDutyDeadlineFunc is)",
-        "the ~292-year timer armed while no duty is pending and context cancellation are not modelled",
+        "the ~292-year timer armed while no duty is pending is modelled as: nothing fires while nothing is pending (exercised by idle multi-day histories); context cancellation is not modelled",
         "'a consumer that keeps reading' is read as: the 10-slot output queue is never full when a timer fires; the dropping branch is modelled (LDrop) and C16_drop_only_when_full shows it is the only way a report is lost",
         "harness histories are quiescent between operations (synctest.Wait); the theorems also cover non-quiescent interleavings, which the harness cannot produce",
     ]
@@ -92,7 +92,7 @@ def main():
             seen.add(vp.digest(h["labels"]))
     R.coverage["distinct_nontrivial"] = len(seen)
     R.coverage["rule"] = ("histories of add/advance/read operations against core.NewDeadlinerForT with a fake clock in a synctest bubble "
-                          "(kinds: corpus, random, duerace = several duties on one deadline with one re-registered at the deadline instant while the timer is ready, far = deadlines hours away with large clock steps, race = an Add issued while a timer is ready and unserved (both orders admissible), burst = many duties on one deadline with a late consumer, edge = adds at/around the deadline instant and re-adds after the report); "
+                          "(kinds: corpus, random, duerace = several duties on one deadline with one re-registered at the deadline instant while the timer is ready, far = deadlines hours away with large clock steps, veryfar = deadlines 1-10 days away and idle periods longer than a day (also with nothing pending at all), race = an Add issued while a timer is ready and unserved (both orders admissible), burst = many duties on one deadline with a late consumer, edge = adds at/around the deadline instant and re-adds after the report); "
                           "non-trivial = at least one report happened and at least one add was refused or repeated; distinct by hash of the observed label sequence")
     kinds = {}
     nlabels = 0
@@ -103,6 +103,13 @@ def main():
                                         "histories_with_drop": sum(1 for h in hs if any(l.startswith("LDrop") for l in h["labels"]))}
     R.add_samples([{"script": h["script"], "labels": h["labels"]} for h in hs if h.get("nontrivial")][:2])
     byid = {h["id"]: h for h in hs}
+    # a report of a duty the harness cannot even name (e.g. the zero Duty{}) was never registered: concrete violation
+    bad = [h for h in hs if any(re.search(r"^(?:RACE )?L\w+ -\d", l) for l in h["labels"])]
+    for h in bad:
+        lab = next(l for l in h["labels"] if re.search(r"^(?:RACE )?L\w+ -\d", l))
+        R.violation("reported-unregistered", "the deadliner reported a duty that was never registered (%s: not one of the harness's duties, e.g. the zero Duty{})" % lab,
+                    {"script": h["script"], "labels": h["labels"], "how": "./check C16 --replay <this file> re-runs the script against /repo"})
+    hs = [h for h in hs if h not in bad]
     for shard_i, shard in enumerate(vp.chunks(hs, 1000)):
         rc, out = vp.coq_eval("C16_%d" % shard_i, cases_v(shard))
         if rc != 0:
